@@ -58,13 +58,16 @@ structure Iface where
   up : Bool
 deriving DecidableEq, Repr, Inhabited
 
-/-- One desired target: (route class, interface name, CIDR) ↦ gateway + kind. -/
+/-- One desired target: (route class, interface name, route key) ↦ gateway + kind.  `cidr` is the key the target is
+filed under (`normalizeRouteKey` of the key the caller gave, `raw`; a key is `<cidr>` for priority 0 and
+`<cidr>@<priority>` otherwise). -/
 structure Want where
   cls : Nat
   iface : String
   cidr : String
   gw : String
   kind : String
+  raw : String
 deriving DecidableEq, Repr, Inhabited
 
 /-- `MainTableOwnershipPolicy`. -/
@@ -87,6 +90,7 @@ def Policy.routeIsOurs (p : Policy) (iface : String) (proto : Nat) : Bool :=
 structure RT where
   pol : Policy
   defProto : Nat
+  v6 : Bool := false                -- ipVersion == 6
   n2i : Map Nat := []               -- ifaceNameToIndex
   i2n : NMap String := []           -- ifaceIndexToName
   i2s : NMap Bool := []             -- ifaceIndexToState (true = up, false = down, absent = not present)
@@ -98,6 +102,11 @@ structure RT where
 deriving Repr, Inhabited
 
 def RT.ifaceName (t : RT) (idx : Nat) : Option String := t.i2n.get idx
+
+/-- `normalizeRouteKey`: for IPv6 the kernel reads priority 0 as 1024, so a key without a priority is filed under
+priority 1024. -/
+def RT.norm (t : RT) (key : String) : String :=
+  if t.v6 && !(key.toList.contains '@') then key ++ "@1024" else key
 
 /-- `routeIsOurs`: routes on unknown interfaces are ignored. -/
 def RT.owns (t : RT) (r : KRoute) : Bool :=
@@ -137,16 +146,18 @@ def RT.desiredKeys (t : RT) : List String := t.des.keys
 /-- `SetRoutes` for one class/interface: the destinations that were removed and all the new ones are recalculated. -/
 def RT.setRoutes (t : RT) (cls : Nat) (iface : String) (ws : List Want) : RT :=
   let old := (t.wants.filter (fun w => w.cls == cls && w.iface == iface)).map (·.cidr)
-  let new := ws.eraseDups
+  let new := (ws.map (fun w => { w with cidr := t.norm w.raw })).eraseDups
   let t := { t with wants := t.wants.filter (fun w => !(w.cls == cls && w.iface == iface)) ++ new }
   (old.filter (fun c => !(new.map (·.cidr)).contains c) ++ new.map (·.cidr)).foldl RT.recalc t
 
 /-- `RouteUpdate`. -/
 def RT.routeUpdate (t : RT) (w : Want) : RT :=
+  let w : Want := { w with cidr := t.norm w.raw }
   ({ t with wants := t.wants.filter (fun x => !(x.cls == w.cls && x.iface == w.iface && x.cidr == w.cidr)) ++ [w] } : RT).recalc w.cidr
 
 /-- `RouteRemove` (nothing happens, in particular no recalculation, if there is no such target). -/
-def RT.routeRemove (t : RT) (cls : Nat) (iface cidr : String) : RT :=
+def RT.routeRemove (t : RT) (cls : Nat) (iface rawKey : String) : RT :=
+  let cidr := t.norm rawKey
   if t.wants.any (fun x => x.cls == cls && x.iface == iface && x.cidr == cidr) then
     ({ t with wants := t.wants.filter (fun x => !(x.cls == cls && x.iface == iface && x.cidr == cidr)) } : RT).recalc cidr
   else t
@@ -246,7 +257,7 @@ def W.resyncIface (w : W) (name : String) : W × Bool :=
         let seen := w.K.filter (fun p => p.2.ifindex == ki.idx && t.owns p.2)
         let dp1 := seen.foldl (fun m p => m.set p.1 p.2) t.dp
         let t1 := { t with dp := dp1 }
-        let missing := ((t.wants.filter (fun x => x.iface == name)).map (·.cidr)).eraseDups.filter (fun c =>
+        let missing := ((t.wants.filter (fun x => x.iface == name)).map (fun x => t.norm x.raw)).eraseDups.filter (fun c =>
           !(Map.has seen c) && (match t1.desired c with | some r => r.ifindex == ki.idx | none => false))
         ({ w with t := { t1 with dp := missing.foldl (fun m c => m.erase c) dp1 } }, false)
 
